@@ -1165,6 +1165,11 @@ fn build_destructure_action(
     let end_offset =
         line_char_to_offset(src, range.end.line as usize, range.end.character as usize);
 
+    // A range that ends before it starts is not a selection.
+    if start_offset > end_offset {
+        return None;
+    }
+
     let new_src = destructure(src, path, start_offset, end_offset).ok()?;
 
     let full_range = whole_document_range(src);
@@ -1204,6 +1209,11 @@ fn build_wrap_in_dbg_action(
     );
     let end_offset =
         line_char_to_offset(src, range.end.line as usize, range.end.character as usize);
+
+    // A range that ends before it starts is not a selection.
+    if start_offset > end_offset {
+        return None;
+    }
 
     let new_src = wrap_in_dbg(src, path, start_offset, end_offset).ok()?;
 
@@ -1245,6 +1255,11 @@ fn build_add_type_annotation_action(
     );
     let end_offset =
         line_char_to_offset(src, range.end.line as usize, range.end.character as usize);
+
+    // A range that ends before it starts is not a selection.
+    if start_offset > end_offset {
+        return None;
+    }
 
     let new_src = add_type_annotation(src, path, start_offset, end_offset).ok()?;
 
